@@ -1,15 +1,591 @@
-//! C15 probe (temporary)
+//! C15: `Composite::from_string`.  Requests in the line protocol of lean/Driver/C15.lean.
+//!
+//!   g <name> <maxw> <text> | <parts>                       grammar-generated description with its structure
+//!   m <name> <maxw> <text> | <class> | <expected answer>   malformed by construction: the documented error
+//!   d <name> <maxw> <text>                                 an example of the documentation (must be accepted)
+//!   x <name> <maxw> <text>                                 fixed corpus / mutated / garbage (no panic)
+//!
+//! <text>, <name>, error payloads: '.'-separated hexadecimal code points ('-' for the empty string).
+//! <parts>: `P <w0> <name> <wOpen> <nargs> {<cst> <wAfter>}* <nbits> {<w> <zeros> <val>}* <wEnd>` per part, blanks as
+//! `w<hex>`, <cst> in prefix form (`L w t`, `B op a w b`, `N w a`, `F w1 f w2 a w3`, `P w1 a w2`).
+//! Answer: `ok <width> <name> | mat <n> <re im>...` (`mat -` if wider than <maxw>, `mat panic`), `err <ctor> <payload>`, `panic`.
+//!
+//! The sub-gate list of a `Composite` is private: it is observed through `matrix()` (width <= maxw).  With the hook
+//! requested in /verif/hook_requests/C15.md (`Composite::verif_ops`) `sub_ops` below can report it directly.
 use q1t_harness::*;
+use q1tsim::error::ParseError;
 use q1tsim::gates::{Composite, Gate};
+
+fn hex(s: &str) -> String
+{
+    if s.is_empty() { return "-".to_string(); }
+    s.chars().map(|c| format!("{:x}", c as u32)).collect::<Vec<_>>().join(".")
+}
+
+fn unhex(t: &str) -> String
+{
+    if t == "-" { String::new() } else {
+        t.split('.').map(|h| std::char::from_u32(u32::from_str_radix(h, 16).unwrap()).unwrap()).collect() }
+}
+
+fn err_line(e: &ParseError) -> String
+{
+    match e
+    {
+        ParseError::UnknownGate(s) => format!("err unknownGate {}", hex(s)),
+        ParseError::NoGateName(s) => format!("err noGateName {}", hex(s)),
+        ParseError::InvalidNrArguments(a, x, s) => format!("err invalidNrArguments {} {} {}", a, x, hex(s)),
+        ParseError::InvalidNrBits(a, x, s) => format!("err invalidNrBits {} {} {}", a, x, hex(s)),
+        ParseError::InvalidArgument(s) => format!("err invalidArgument {}", hex(s)),
+        ParseError::NoBits(s) => format!("err noBits {}", hex(s)),
+        ParseError::InvalidBit(s) => format!("err invalidBit {}", hex(s)),
+        ParseError::TrailingText(s) => format!("err trailingText {}", hex(s)),
+        ParseError::UnclosedParentheses(s) => format!("err unclosedParentheses {}", hex(s)),
+    }
+}
+
+fn answer(name: &str, maxw: usize, text: &str) -> String
+{
+    let (n, t) = (name.to_string(), text.to_string());
+    let r = catch(move || {
+        match Composite::from_string(&n, &t)
+        {
+            Ok(g) => {
+                let w = g.nr_affected_bits();
+                let nm = g.description().to_string();
+                let mat = if w > maxw { "-".to_string() } else {
+                    match catch(std::panic::AssertUnwindSafe(|| g.matrix()))
+                    {
+                        Some(m) => {
+                            let mut s = format!("{}", m.rows());
+                            for c in m.iter() { s += &format!(" {} {}", fbits(c.re), fbits(c.im)); }
+                            s
+                        },
+                        None => "panic".to_string()
+                    }
+                };
+                format!("ok {} {} | mat {}", w, hex(&nm), mat)
+            },
+            Err(e) => err_line(&e)
+        }
+    });
+    r.unwrap_or_else(|| "panic".to_string())
+}
+
+// ---------------------------------------------------------------------------------------------
+// argument expressions (concrete syntax with layout), as in c14.rs but of moderate magnitude
+
+#[derive(Clone)]
+enum Ast { Lit(String), Bin(char, Box<Ast>, Box<Ast>), Neg(Box<Ast>), App(&'static str, Box<Ast>) }
+
+enum Cst
+{
+    L(String, String),
+    B(char, Box<Cst>, String, Box<Cst>),
+    N(String, Box<Cst>),
+    F(String, &'static str, String, Box<Cst>, String),
+    P(String, Box<Cst>, String)
+}
+
+const WS: [char; 19] = [' ', ' ', ' ', ' ', '\t', '\n', '\r', '\u{b}', '\u{c}', '\u{85}', '\u{a0}', '\u{1680}',
+    '\u{2000}', '\u{200a}', '\u{2028}', '\u{2029}', '\u{202f}', '\u{205f}', '\u{3000}'];
+
+fn ws(rng: &mut SplitMix64) -> String
+{
+    match rng.below(8)
+    {
+        0..=3 => String::new(),
+        4..=5 => " ".to_string(),
+        _ => { let n = 1 + rng.below(3); (0..n).map(|_| *rng.pick(&WS)).collect() }
+    }
+}
+
+/// at least one blank
+fn ws1(rng: &mut SplitMix64) -> String
+{
+    match rng.below(6)
+    {
+        0..=3 => " ".to_string(),
+        _ => { let n = 1 + rng.below(3); (0..n).map(|_| *rng.pick(&WS)).collect() }
+    }
+}
+
+fn digits(rng: &mut SplitMix64, n: u64) -> String { (0..n).map(|_| (b'0' + rng.below(10) as u8) as char).collect() }
+
+fn literal(rng: &mut SplitMix64, ovf: bool) -> String
+{
+    match rng.below(16)
+    {
+        0..=2 => "pi".to_string(),
+        3 => "0".to_string(),
+        4..=7 => format!("{}", rng.below(13)),
+        8 => if ovf { (*rng.pick(&["18446744073709551616", "99999999999999999999"])).to_string() } else { "2".to_string() },
+        9..=11 => { let a = 1 + rng.below(1); let b = rng.below(4); format!("{}.{}", digits(rng, a), digits(rng, b)) },
+        12 => { let b = 1 + rng.below(3); format!(".{}", digits(rng, b)) },
+        13 => (*rng.pick(&["1.5707963267948966", "3.141592653589793", "0.7853981633974483", "4.7124", "1.5708", "6.283185307179586",
+                           "0.1", "1.e0", "2.5E-1", "1.0e+1", "00.50", "1.", "12.566370614359172"])).to_string(),
+        _ => { let e = *rng.pick(&["e", "E"]); let s = *rng.pick(&["", "+", "-"]);
+               format!("{}.{}{}{}{}", rng.below(10), digits(rng, 2), e, s, rng.below(3)) }
+    }
+}
+
+fn gen_ast(rng: &mut SplitMix64, depth: u32, ovf: bool) -> Ast
+{
+    if depth == 0 || rng.below(4) == 0 { return Ast::Lit(literal(rng, ovf)); }
+    let sub = |rng: &mut SplitMix64| Box::new(gen_ast(rng, depth - 1, ovf));
+    match rng.below(14)
+    {
+        0..=1 => Ast::Bin('+', sub(rng), sub(rng)),
+        2..=3 => Ast::Bin('-', sub(rng), sub(rng)),
+        4..=5 => Ast::Bin('*', sub(rng), sub(rng)),
+        6..=7 => Ast::Bin('/', sub(rng), sub(rng)),
+        8 => Ast::Bin('^', sub(rng), Box::new(Ast::Lit(format!("{}", rng.below(4))))),
+        9..=10 => Ast::Neg(sub(rng)),
+        11 => Ast::App(*rng.pick(&["sin", "cos", "sqrt"]), sub(rng)),
+        12 => Ast::App(*rng.pick(&["tan", "ln"]), sub(rng)),
+        _ => Ast::App("exp", Box::new(Ast::Lit(format!("{}.{}", rng.below(3), rng.below(10)))))
+    }
+}
+
+fn level(a: &Ast) -> u32
+{
+    match a { Ast::Bin('+', _, _) | Ast::Bin('-', _, _) => 0, Ast::Bin('^', _, _) => 3, Ast::Bin(_, _, _) => 1, Ast::Neg(_) => 2, _ => 4 }
+}
+
+/// Conventional layout: minimal parentheses, random blanks, now and then a redundant pair of parentheses.
+fn lay(a: &Ast, need: u32, rng: &mut SplitMix64) -> Cst
+{
+    if level(a) < need || rng.below(12) == 0
+    {
+        let w1 = ws(rng);
+        let c = lay(a, 0, rng);
+        return Cst::P(w1, Box::new(c), ws(rng));
+    }
+    match a
+    {
+        Ast::Lit(t) => Cst::L(ws(rng), t.clone()),
+        Ast::Bin(op, x, y) => {
+            let (l, r) = match op { '+' | '-' => (0, 1), '*' | '/' => (1, 2), _ => (4, 3) };
+            let cx = lay(x, l, rng);
+            let w = ws(rng);
+            let cy = lay(y, r, rng);
+            Cst::B(*op, Box::new(cx), w, Box::new(cy))
+        },
+        Ast::Neg(x) => { let w = ws(rng); Cst::N(w, Box::new(lay(x, 2, rng))) },
+        Ast::App(f, x) => {
+            let w1 = ws(rng); let w2 = ws(rng);
+            let c = lay(x, 0, rng);
+            Cst::F(w1, f, w2, Box::new(c), ws(rng))
+        }
+    }
+}
+
+fn flatten(c: &Cst, out: &mut String)
+{
+    match c
+    {
+        Cst::L(w, t) => { out.push_str(w); out.push_str(t); },
+        Cst::B(op, x, w, y) => { flatten(x, out); out.push_str(w); out.push(*op); flatten(y, out); },
+        Cst::N(w, x) => { out.push_str(w); out.push('-'); flatten(x, out); },
+        Cst::F(w1, f, w2, x, w3) => { out.push_str(w1); out.push_str(f); out.push_str(w2); out.push('('); flatten(x, out); out.push_str(w3); out.push(')'); },
+        Cst::P(w1, x, w2) => { out.push_str(w1); out.push('('); flatten(x, out); out.push_str(w2); out.push(')'); }
+    }
+}
+
+fn wtok(w: &str) -> String { if w.is_empty() { "w".to_string() } else { format!("w{}", hex(w)) } }
+
+fn ser(c: &Cst) -> String
+{
+    match c
+    {
+        Cst::L(w, t) => format!("L {} {}", wtok(w), t),
+        Cst::B(op, x, w, y) => format!("B {} {} {} {}", op, ser(x), wtok(w), ser(y)),
+        Cst::N(w, x) => format!("N {} {}", wtok(w), ser(x)),
+        Cst::F(w1, f, w2, x, w3) => format!("F {} {} {} {} {}", wtok(w1), f, wtok(w2), ser(x), wtok(w3)),
+        Cst::P(w1, x, w2) => format!("P {} {} {}", wtok(w1), ser(x), wtok(w2))
+    }
+}
+
+// ---------------------------------------------------------------------------------------------
+// sub-gate descriptions
+
+/// The documented gate names with their numbers of parameters and qubits.
+const GATES: [(&str, usize, usize); 39] = [
+    ("ccrx", 1, 3), ("ccry", 1, 3), ("ccrz", 1, 3), ("ccx", 0, 3), ("ccz", 0, 3), ("ch", 0, 2), ("crx", 1, 2), ("cry", 1, 2),
+    ("crz", 1, 2), ("cs", 0, 2), ("csdg", 0, 2), ("ct", 0, 2), ("ctdg", 0, 2), ("cu1", 1, 2), ("cu2", 2, 2), ("cu3", 3, 2),
+    ("cv", 0, 2), ("cvdg", 0, 2), ("cx", 0, 2), ("cy", 0, 2), ("cz", 0, 2), ("h", 0, 1), ("i", 0, 1), ("rx", 1, 1), ("ry", 1, 1),
+    ("rz", 1, 1), ("s", 0, 1), ("sdg", 0, 1), ("t", 0, 1), ("tdg", 0, 1), ("swap", 0, 2), ("u1", 1, 1), ("u2", 2, 1), ("u3", 3, 1),
+    ("v", 0, 1), ("vdg", 0, 1), ("x", 0, 1), ("y", 0, 1), ("z", 0, 1)];
+
+const UNKNOWN: [&str; 16] = ["foo", "hh", "xx", "cnot", "toffoli", "ccy", "cswap", "u", "rxx", "id", "h2", "sx", "c", "u4", "cccx", "measure"];
+
+struct Part
+{
+    w0: String, name: String, w_open: String,
+    args: Vec<(Cst, String)>,
+    bits: Vec<(String, usize, String)>,      // blanks, zeros, decimal text of the index
+    w_end: String
+}
+
+fn random_case(rng: &mut SplitMix64, s: &str) -> String
+{
+    s.chars().map(|c| if rng.coin() { c.to_ascii_uppercase() } else { c }).collect()
+}
+
+impl Part
+{
+    fn head(&self) -> String
+    {
+        let mut s = format!("{}{}", self.w0, self.name);
+        if !self.args.is_empty()
+        {
+            s.push_str(&self.w_open);
+            s.push('(');
+            for (i, (c, w)) in self.args.iter().enumerate()
+            {
+                flatten(c, &mut s);
+                s.push_str(w);
+                s.push(if i + 1 == self.args.len() { ')' } else { ',' });
+            }
+        }
+        s
+    }
+    /// text after the name up to and including argument `k`'s trailing blanks (no separator after it)
+    fn args_upto(&self, k: usize) -> String
+    {
+        let mut s = format!("{}(", self.w_open);
+        for (i, (c, w)) in self.args.iter().enumerate().take(k + 1)
+        {
+            flatten(c, &mut s);
+            s.push_str(w);
+            if i < k { s.push(','); }
+        }
+        s
+    }
+    fn bits_text(&self) -> String
+    {
+        self.bits.iter().map(|(w, z, v)| format!("{}{}{}", w, "0".repeat(*z), v)).collect()
+    }
+    fn render(&self) -> String { format!("{}{}{}", self.head(), self.bits_text(), self.w_end) }
+    fn ser(&self) -> String
+    {
+        let mut s = format!("P {} {} {} {}", wtok(&self.w0), hex(&self.name), wtok(&self.w_open), self.args.len());
+        for (c, w) in &self.args { s += &format!(" {} {}", ser(c), wtok(w)); }
+        s += &format!(" {}", self.bits.len());
+        for (w, z, v) in &self.bits { s += &format!(" {} {} {}", wtok(w), z, v); }
+        s + &format!(" {}", wtok(&self.w_end))
+    }
+}
+
+/// A sub-gate description: `name` as written, `nargs` generated arguments, the given qubit indices.
+fn part(rng: &mut SplitMix64, name: &str, nargs: usize, idx: &[String], ovf: bool) -> Part
+{
+    let args: Vec<(Cst, String)> = (0..nargs).map(|_| {
+        let d = rng.below(4) as u32;
+        let a = gen_ast(rng, d, ovf);
+        (lay(&a, 0, rng), ws(rng)) }).collect();
+    let bits = idx.iter().enumerate().map(|(i, v)| {
+        let w = if i == 0 && nargs > 0 { ws(rng) } else { ws1(rng) };
+        let z = if rng.below(8) == 0 { 1 + rng.below(3) as usize } else { 0 };
+        (w, z, v.clone()) }).collect();
+    Part { w0: ws(rng), name: name.to_string(), w_open: ws(rng), args, bits, w_end: ws(rng) }
+}
+
+/// `k` qubit indices below `width`, distinct unless `dup`.
+fn indices(rng: &mut SplitMix64, k: usize, width: usize, dup: bool) -> Vec<String>
+{
+    let mut all: Vec<usize> = (0..width.max(k)).collect();
+    rng.shuffle(&mut all);
+    let mut v: Vec<usize> = all[..k].to_vec();
+    if dup && k > 1 { v[1] = v[0]; }
+    v.iter().map(|x| x.to_string()).collect()
+}
+
+fn known_part(rng: &mut SplitMix64, width: usize, which: Option<usize>, ovf: bool) -> Part
+{
+    let (key, na, nb) = GATES[which.unwrap_or_else(|| rng.below(GATES.len() as u64) as usize)];
+    let idx = indices(rng, nb, width.max(nb), false);
+    let name = random_case(rng, key);
+    part(rng, &name, na, &idx, ovf)
+}
+
+fn join_parts(ps: &[String]) -> String { ps.join(";") }
+
+const JUNK: [&str; 14] = ["x", "and something", "q[0]", "(1)", ",", ", 1", "-1", "=", "#", "\u{e9}", "]", ") 0", "H", "+"];
+const NOSTART: [&str; 12] = ["", ")", "*", "/", "+", "^", "abc", "x", "P", "\u{e9}", "]", "="];
+const GARBAGE: [&str; 44] = ["0", "1", "2", "9", ".", "e", "+", "-", "*", "/", "^", "(", ")", " ", "  ", "\t", "\n", "pi", "sin", "sqrt",
+    "x", ",", ";", ";", "\u{a0}", "\u{2003}", "\u{661}", "\u{ff13}", "\u{e9}", "\u{200b}", "\u{17f}", "\u{212a}", "1.5", "H", "h", "cx", "CX",
+    "rx", "RX(", "u3", "18446744073709551615", "18446744073709551616", "00", "Q"];
+
 fn main()
 {
+    let dir = std::env::args().nth(1).expect("usage: c15 <outdir> [replay <request line>]");
     silence_panics();
-    for s in std::env::args().skip(1)
+    let mut rng = SplitMix64::from_env();
+    let mut out = Out::new(&dir);
+    if std::env::args().nth(2).as_deref() == Some("replay")
     {
-        let t = s.clone();
-        let r = catch(move || match Composite::from_string("N", &t) {
-            Ok(g) => format!("ok {} {}", g.nr_affected_bits(), g.description()),
-            Err(e) => format!("err {:?}", e) });
-        println!("{:?} -> {:?}", s, r);
+        let req = std::env::args().nth(3).expect("replay needs the request line");
+        let f: Vec<&str> = req.split_whitespace().collect();
+        let (name, maxw, text) = (unhex(f[1]), f[2].parse::<usize>().unwrap(), unhex(f[3]));
+        out.case(&req, &answer(&name, maxw, &text));
+        out.finish();
+        return;
     }
+    let scale: u64 = if thorough() { 8 } else { 1 };
+    let maxw: usize = if thorough() { 5 } else { 4 };
+    let names = ["G", "my_gate", "Inc3", "\u{dc}b er", ""];
+
+    // documentation examples
+    for s in ["H 1; CX 0 1; H 1", "RY(4.7124) 1; CX 1 0; RY(1.5708) 1; X1"]
+    {
+        out.case(&format!("d {} {} {}", hex("G"), maxw, hex(s)), &answer("G", maxw, s));
+    }
+    // a parameter written as an integer literal >= 2^64 (finding C15-arg-int-literal-overflow), with its structure
+    {
+        let s = "U1(18446744073709551616) 0";
+        out.case(&format!("g {} {} {} | P w {} w 1 L w 18446744073709551616 w 1 w20 0 0 w", hex("G"), maxw, hex(s), hex("U1")), &answer("G", maxw, s));
+    }
+    // fixed corpus: strings of the test-suite and edge cases
+    for s in ["CCX 2 1 0; CX 2 1; X 2", "U3(3.141592653589793,1.570796326794897,1.570796326794897) 0", "XYZ 0", "X 1; 0",
+              "RX(1.2, 3.4) 1", "H 0 1", "RX(abc) 1", "U1(12897231928172918729136192817936) 0", "H 0; X", "H 117356715625188271521875",
+              "H 0 and something", "RX(1.2a) 1", "RX(1.2*(1+2 1", "RX(sin(1.2 1", "", " ", ";", "H 0;", ";H 0", "H 0;;X 0", "H0", "h \u{663}",
+              "h 1\u{663}", "CX 0 0", "CCX 0 1 0", "\u{17f} 0", "\u{212a} 0", "H 18446744073709551615", "H 18446744073709551614",
+              "foo 18446744073709551615", "H 18446744073709551616", "H 0018446744073709551615", "H 00000000000000000000001",
+              "rx(1,2) 0 1", "foo(1) 0 1 2", "H 0 ;X 00001", "U1(18446744073709551616) 0", "U1(18446744073709551616.) 0", "H(", "H()", "H(1", "H(1,)",
+              "RX (pi) 0", "RX(pi)0", "RX(pi)0 1", "rx(2^-1) 0", "rx(--1) 0", "rx(1e5) 0", "rx(1.e5) 0", "rx(1/0) 0", "rx(0/0) 0", "rx(ln(0)) 0",
+              "rx(sqrt(-1)) 0", "H\u{a0}0", "H\u{200b}0", "H 0\u{3000}", "\u{feff}H 0", "H 0\u{0}", "x 0;y 0;z 0;h 0;s 0;sdg 0;t 0;tdg 0;v 0;vdg 0;i 0",
+              "SWAP 0 1; Swap 1 0", "h 0 ; cX 0 1 ; CcX 0 1 2", "u2(0,pi) 0", "U2 (0 , pi ) 0", "u3(pi/2,0,pi)0", "cu3(1,2,3)0 1", "H 40", "H 7; X 3",
+              "H +1", "H -1", "H 1.5", "H 1e3", "H 0x10", "H 1_000", "RX(1)(2) 0", "RX((1)) 0", "RX(1;2) 0", "RX(1,;2) 0", "H 0 ; ; X 0",
+              "ccrx(pi) 0 1 2; ccry(pi) 0 1 2; ccrz(pi) 0 1 2; ccz 0 1 2", "crx(1)0 1;cry(1)0 1;crz(1)0 1;cu1(1)0 1;cu2(1,2)0 1",
+              "ch 0 1;cs 0 1;csdg 0 1;ct 0 1;ctdg 0 1;cv 0 1;cvdg 0 1;cy 0 1;cz 0 1"]
+    {
+        let nm = *rng.pick(&names);
+        out.case(&format!("x {} {} {}", hex(nm), maxw, hex(s)), &answer(nm, maxw, s));
+    }
+
+    // every documented name, alone, in random letter case
+    for rep in 0..(3 * scale as usize)
+    {
+        for k in 0..GATES.len()
+        {
+            let p = known_part(&mut rng, if rep % 2 == 0 { 3 } else { 4 }, Some(k), false);
+            let s = p.render();
+            out.case(&format!("g {} {} {} | {}", hex("G"), maxw, hex(&s), p.ser()), &answer("G", maxw, &s));
+        }
+    }
+
+    // grammar-generated descriptions: 1..6 parts
+    let ngen = 900 * scale;
+    for i in 0..ngen
+    {
+        let nparts = 1 + (i % 6) as usize;
+        let width = 1 + rng.below(maxw as u64) as usize;
+        let ovf = rng.below(25) == 0;
+        let mut ps: Vec<Part> = (0..nparts).map(|_| known_part(&mut rng, width, None, ovf)).collect();
+        match rng.below(30)
+        {
+            0 => { // repeated qubit within one sub-gate
+                let j = rng.below(nparts as u64) as usize;
+                if ps[j].bits.len() > 1 { let v = ps[j].bits[0].2.clone(); ps[j].bits[1].2 = v; }
+            },
+            1 | 2 => { // a large index: wider than any matrix we take
+                let j = rng.below(nparts as u64) as usize;
+                ps[j].bits[0].2 = (*rng.pick(&["7", "12", "40", "63", "64", "1000000", "4294967296", "18446744073709551614"])).to_string();
+            },
+            3 => { // usize::MAX: no width; beyond: not an index
+                let j = rng.below(nparts as u64) as usize;
+                ps[j].bits[0].2 = (*rng.pick(&["18446744073709551615", "18446744073709551616", "117356715625188271521875"])).to_string();
+            },
+            _ => {}
+        }
+        let s = join_parts(&ps.iter().map(|p| p.render()).collect::<Vec<_>>());
+        let nm = *rng.pick(&names);
+        let st = ps.iter().map(|p| p.ser()).collect::<Vec<_>>().join(" ");
+        out.case(&format!("g {} {} {} | {}", hex(nm), maxw, hex(&s), st), &answer(nm, maxw, &s));
+    }
+
+    // malformed by construction: <good parts> ; <bad part> [; <more>]
+    let nmal = 700 * scale;
+    for i in 0..nmal
+    {
+        let width = 1 + rng.below(4) as usize;
+        let ngood = rng.below(3) as usize;
+        let good: Vec<String> = (0..ngood).map(|_| known_part(&mut rng, width, None, false).render()).collect();
+        let (key, na, nb) = GATES[rng.below(GATES.len() as u64) as usize];
+        let name = random_case(&mut rng, key);
+        // `parse`: the error is found while the parts are parsed, whatever follows; otherwise it is found at dispatch,
+        // after every part has been parsed
+        let (class, bad, want, parse): (&str, String, String, bool) = match i % 14
+        {
+            0 => {
+                let u = *rng.pick(&UNKNOWN);
+                let nm = random_case(&mut rng, u);
+                let (a, b) = (rng.below(3) as usize, 1 + rng.below(3) as usize);
+                let ix = indices(&mut rng, b, 4, false);
+                let p = part(&mut rng, &nm, a, &ix, false);
+                ("unknown-name", p.render(), format!("err unknownGate {}", hex(&nm)), false)
+            },
+            1 => {
+                let mut a = rng.below(4) as usize;
+                if a == na { a = if na == 0 { 1 + rng.below(2) as usize } else { na - 1 } }
+                let b = 1 + rng.below(4) as usize;
+                let ix = indices(&mut rng, b, 4, false);
+                let p = part(&mut rng, &name, a, &ix, false);
+                ("wrong-nr-params", p.render(), format!("err invalidNrArguments {} {} {}", a, na, hex(&name)), false)
+            },
+            2 => {
+                let mut b = 1 + rng.below(4) as usize;
+                if b == nb { b = if nb == 1 { 2 + rng.below(2) as usize } else { nb - 1 } }
+                let ix = indices(&mut rng, b, 4, false);
+                let p = part(&mut rng, &name, na, &ix, false);
+                ("wrong-nr-qubits", p.render(), format!("err invalidNrBits {} {} {}", b, nb, hex(&name)), false)
+            },
+            3 => {
+                let mut p = part(&mut rng, &name, na, &[], false);
+                if na == 0 && rng.coin()
+                {
+                    // the shape of the documentation's `X1`: digits glued to the name belong to the name
+                    p.name = format!("{}{}", name, rng.below(100));
+                }
+                ("no-qubits", p.render(), format!("err noBits {}", hex(&p.name)), true)
+            },
+            4 => {
+                let t = match rng.below(6)
+                {
+                    0 => String::new(),
+                    1 => ws1(&mut rng),
+                    2 => format!("{}{}", ws(&mut rng), rng.below(10)),
+                    3 => format!("{}{} 0", ws(&mut rng), rng.pick(&["(", ")", ",", "*", "_x", "\u{e9}", "\u{661}", "-h", "[h]"])),
+                    4 => format!("{}0 h", ws(&mut rng)),
+                    _ => format!("{}(1) 0", ws(&mut rng))
+                };
+                ("no-name", t.clone(), format!("err noGateName {}", hex(&t)), true)
+            },
+            5 => {
+                let ix = indices(&mut rng, nb, 4, false);
+                let mut p = part(&mut rng, &name, na, &ix, false);
+                let junk = *rng.pick(&JUNK);
+                p.w_end = format!("{}{}{}", ws(&mut rng), junk, ws(&mut rng));
+                ("trailing-text", p.render(), format!("err trailingText {}", hex(junk)), true)
+            },
+            6 => {
+                let ix = indices(&mut rng, nb.max(1), 4, false);
+                let mut p = part(&mut rng, &name, na, &ix, false);
+                let t = match rng.below(5)
+                {
+                    0 => "18446744073709551616".to_string(),
+                    1 => "117356715625188271521875".to_string(),
+                    2 => "\u{663}".to_string(),
+                    3 => format!("{}\u{ff11}", rng.below(10)),
+                    _ => format!("\u{1d7d9}{}", rng.below(10))
+                };
+                let j = rng.below(p.bits.len() as u64) as usize;
+                p.bits[j].2 = t.clone();
+                let z = "0".repeat(p.bits[j].1);
+                // anything after the offending index is never looked at
+                if rng.coin() { p.w_end = " (".to_string(); }
+                ("invalid-index", p.render(), format!("err invalidBit {}", hex(&format!("{}{}", z, t))), true)
+            },
+            7 => {
+                // usize::MAX as an index: found after all parts are parsed, before any name is looked up
+                let nm = if rng.coin() { name.clone() } else { (*rng.pick(&UNKNOWN)).to_string() };
+                let (a, b) = (rng.below(2) as usize, 1 + rng.below(3) as usize);
+                let ix = indices(&mut rng, b, 4, false);
+                let mut p = part(&mut rng, &nm, a, &ix, false);
+                let j = rng.below(p.bits.len() as u64) as usize;
+                p.bits[j].2 = "18446744073709551615".to_string();
+                ("index-overflow", p.render(), format!("err invalidBit {}", hex("18446744073709551615")), false)
+            },
+            8 | 9 => {
+                // argument list not closed: after a complete argument neither `,` nor `)`
+                let n = 1 + rng.below(3) as usize;
+                let p = part(&mut rng, &name, n, &[], false);
+                let k = rng.below(n as u64) as usize;
+                let tail = match rng.below(5) { 0 => String::new(), 1 => format!("{}1", ws1(&mut rng)), 2 => format!("{}] 0", ws(&mut rng)),
+                                               3 => format!("{}x", ws1(&mut rng)), _ => format!("{}(", ws1(&mut rng)) };
+                let payload = format!("{}{}", p.args_upto(k), tail);
+                ("unclosed-list", format!("{}{}{}", p.w0, p.name, payload), format!("err unclosedParentheses {}", hex(&payload)), true)
+            },
+            10 | 11 => {
+                // an argument that cannot start an expression
+                let n = rng.below(3) as usize;
+                let p = part(&mut rng, &name, n, &[], false);
+                let ns = *rng.pick(&NOSTART);
+                let sfx = if ns.is_empty() { *rng.pick(&[") 0", "", ", 2) 0"]) } else { *rng.pick(&[") 0", "", " 1", ", 2) 0"]) };
+                let junk = format!("{}{}{}", ws(&mut rng), ns, sfx);
+                let before = if n == 0 { format!("{}(", p.w_open) } else { format!("{},", p.args_upto(n - 1)) };
+                ("bad-argument", format!("{}{}{}{}", p.w0, p.name, before, junk), format!("err invalidArgument {}", hex(&junk)), true)
+            },
+            12 => {
+                // a parenthesis inside an argument is not closed
+                let a = gen_ast(&mut rng, 1, false);
+                let mut body = String::new();
+                flatten(&lay(&a, 0, &mut rng), &mut body);
+                let prefix = *rng.pick(&["", "1+", "2 *", "-", "3^", "4/ -"]);
+                let open = if rng.coin() { "(".to_string() } else { format!("{}{}(", rng.pick(&["sin", "cos", "sqrt"]), ws(&mut rng)) };
+                let inner = format!("{}{}{}{}", ws(&mut rng), open, body, rng.pick(&["", " 1", " ] 0", " x"]));
+                ("unclosed-parenthesis", format!("{}({}{}", name, prefix, inner), format!("err unclosedParentheses {}", hex(&inner)), true)
+            },
+            _ => {
+                // dangling operator in an argument
+                let a = gen_ast(&mut rng, 1, false);
+                let mut body = String::new();
+                flatten(&lay(&a, 0, &mut rng), &mut body);
+                let junk = format!("{}{}", ws(&mut rng), rng.pick(&[") 0", "", ", 1) 0", "] 0"]));
+                ("dangling-operator", format!("{}({}{}{}{}", name, body, ws(&mut rng), rng.pick(&["+", "-", "*", "/", "^"]), junk),
+                 format!("err invalidArgument {}", hex(&junk)), true)
+            }
+        };
+        let mut parts = good.clone();
+        parts.push(bad);
+        if rng.coin()
+        {
+            if parse
+            {
+                let g: String = (0..rng.below(6)).map(|_| *rng.pick(&GARBAGE)).collect();
+                parts.push(g);
+            }
+            else
+            {
+                // must parse; may itself be unknown or of the wrong arity (a later error)
+                let nm = if rng.coin() { (*rng.pick(&UNKNOWN)).to_string() } else { name.clone() };
+                let (a, b) = (rng.below(2) as usize, 1 + rng.below(2) as usize);
+                let ix = indices(&mut rng, b, 4, false);
+                parts.push(part(&mut rng, &nm, a, &ix, false).render());
+            }
+        }
+        let s = join_parts(&parts);
+        out.case(&format!("m {} {} {} | {} | {}", hex("G"), maxw, hex(&s), class, want), &answer("G", maxw, &s));
+    }
+
+    // mutated renderings and token soup
+    let nmut = 900 * scale;
+    for _ in 0..nmut
+    {
+        let s: String = if rng.below(4) == 0
+        {
+            (0..1 + rng.below(10)).map(|_| *rng.pick(&GARBAGE)).collect()
+        }
+        else
+        {
+            let n = 1 + rng.below(3) as usize;
+            let ps: Vec<String> = (0..n).map(|_| known_part(&mut rng, 3, None, true).render()).collect();
+            let mut cs: Vec<char> = join_parts(&ps).chars().collect();
+            for _ in 0..1 + rng.below(2)
+            {
+                let i = rng.below(cs.len() as u64 + 1) as usize;
+                match rng.below(3)
+                {
+                    0 => if i < cs.len() { cs.remove(i); },
+                    1 => { let g = *rng.pick(&GARBAGE); for (k, ch) in g.chars().enumerate() { cs.insert((i + k).min(cs.len()), ch); } },
+                    _ => if i < cs.len() { cs[i] = rng.pick(&GARBAGE).chars().next().unwrap(); }
+                }
+            }
+            cs.into_iter().collect()
+        };
+        out.case(&format!("x {} {} {}", hex("G"), maxw, hex(&s)), &answer("G", maxw, &s));
+    }
+    let n = out.finish();
+    eprintln!("c15: {} cases", n);
 }
